@@ -1,5 +1,6 @@
 """Kernel checks: explore the kernel's MIR, discharge the property per exit with z3, replay models natively."""
 import json
+import os
 import re
 import time
 
@@ -1086,3 +1087,98 @@ def check_quote(R, drv, tier):
               "longest run of q in the text, and (n > 1) the text neither starting nor ending with q", "wall_s": round(time.time() - t0, 2)})
     R.cov.setdefault("bounds", {})["K-quote"] = f"strings of at most {L} characters (every code point); both closures of quote_string executed from MIR"
     core.log(f"[K-quote] {len(exits)} exits, {nviol} violations in {time.time()-t0:.1f}s")
+
+
+def check_dialect_route(R, drv, tier):
+    """K-dialect-route: the dialect of the options reaches compile_query unchanged: sql::compile hands `options.target`'s dialect to
+    translate_query, which hands it to pq::compile_query (each executed from MIR up to that call, with a symbolic Option<Dialect>)"""
+    t0 = time.time()
+    kernels.register_enums()
+    nd = len(VARIANTS["Dialect"])
+    od, ov = z3.BitVec("opt_d", 64), z3.BitVec("opt_v", 64)
+    pre = [z3.Or(od == 0, od == 1), z3.ULT(ov, nd)]
+    opt_dialect = SEnum("Option", od, {1: {0: SEnum("Dialect", ov, {})}})
+    routes = [("sql::compile", r"^sql::compile($|::)", "translate_query", 1, "options"), ("translate_query", r"^translate_query($|::)", "compile_query", 1, "direct")]
+    nq = 0
+    for fname, rx, callee, argi, how in routes:
+        try:
+            funcs = kernels.load(rx + r"|<impl at prqlc/prqlc/src/sql/dialect.rs[^>]*>::(default|eq|ne|clone)$|<impl at prqlc/prqlc/src/lib.rs[^>]*>::(default|clone)$")
+            if fname not in funcs:
+                R.engine_error(f"K-dialect-route: {fname} not found in MIR")
+                continue
+            seen = []
+
+            class Stop(Exception):
+                pass
+
+            def rec(I, st, a, _seen=seen):
+                import models as _m
+                _seen.append((list(st.pc), _m.deref(I, st, a[argi])))
+                return ("panic", "__route_stop__")
+            stubs = {callee: rec, "gen_query::translate_query": rec, "super::pq::compile_query": rec, "pq::compile_query": rec, "pq::gen_query::compile_query": rec}
+            I = Interp(funcs, stubs=stubs, unwind=4, timeout_s=60)
+            I.stub_patterns = [(re.compile(r"(^|::)%s$" % re.escape(callee)), rec)]
+            if how == "options":
+                target = SEnum("Target", 0, {0: {0: opt_dialect}})
+                options = SAgg("struct", "Options", {0: SBool(z3.Bool("format")), 1: target, 2: SBool(z3.Bool("signature")), 3: SBool(z3.Bool("color")), 4: SOpaque("display", False),
+                                                       "format": SBool(z3.Bool("format")), "target": target, "signature_comment": SBool(z3.Bool("signature")), "color": SBool(z3.Bool("color")),
+                                                       "display": SOpaque("display", False)})
+                # field order of Options is read from the source
+                src = open(os.path.join(core.REPO, "prqlc/prqlc/src/lib.rs")).read()
+                mm = re.search(r"pub struct Options \{(.*?)\n\}", src, re.S)
+                order = re.findall(r"pub (\w+):", re.sub(r"//[^\n]*", "", mm.group(1)))
+                for i_, nm in enumerate(order):
+                    options.f[i_] = options.f.get(nm, SOpaque(nm, False))
+                st = State()
+                st.pc = list(pre)
+                st.heap.append(options)
+                args = [SOpaque("rq", False), SRef(-1, ("cell", 0))]
+            else:
+                st = State()
+                st.pc = list(pre)
+                args = [SOpaque("rq", False), opt_dialect]
+            st.frames.append(I.new_frame(fname, args))
+            I.deadline = time.time() + 60
+            I.exits = []
+            I.explore(st)
+        except Inconclusive as e:
+            R.engine_error(f"K-dialect-route {fname}: {e}")
+            continue
+        _account(R, I, "K-dialect-route")
+        if not seen:
+            R.engine_error(f"K-dialect-route: {fname} never calls {callee}")
+            continue
+        for pc, got in seen:
+            if not isinstance(got, SEnum) or got.ty != "Option":
+                R.engine_error(f"K-dialect-route: {fname} passes {got} to {callee}")
+                continue
+            gd = got.disc if not isinstance(got.disc, int) else z3.BitVecVal(got.disc, 64)
+            inner = got.pay.get(1, {}).get(0)
+            gv = inner.disc if inner is not None and not isinstance(inner.disc, int) else (z3.BitVecVal(inner.disc, 64) if inner is not None else ov)
+            same = z3.And(gd == od, z3.Or(od == 0, gv == ov))
+            v, model, dt = check(pc, z3.Not(same))
+            R.q(v, dt)
+            nq += 1
+            if v == "unknown":
+                R.engine_error("K-dialect-route: unknown")
+            if v != "sat":
+                continue
+            D = VARIANTS["Dialect"]
+            o_d = model.eval(od, model_completion=True).as_long()
+            o_v = D[model.eval(ov, model_completion=True).as_long()]
+            # native replay: a header that names a different dialect must not win over this option
+            name = lambda v_: "variant:" + v_
+            hdr = "mssql" if o_v != "MsSql" else "sqlite"
+            prog = f"prql target:sql.{hdr}\n" + PROBE
+            plain = PROBE
+            r_opt_hdr = drv.compile(prog, name(o_v) if o_d == 1 else "sql.any")
+            r_opt = drv.compile(plain, name(o_v) if o_d == 1 else "sql.any")
+            if o_d == 1 and r_opt_hdr.get("sql") != r_opt.get("sql"):
+                R.violation({"engine": "mirsym", "kernel": "K-dialect-route", "kind": "dialect_route", "fn": fname},
+                            f"K-dialect-route: {fname} hands a different dialect to {callee} than the option {o_v}: with header sql.{hdr} the compiler emits {str(r_opt_hdr.get('sql') or r_opt_hdr.get('errors'))[:160]!r}, without header {str(r_opt.get('sql'))[:160]!r}",
+                            {"prql": prog, "option": o_v, "fn": fname})
+            else:
+                R.cov.setdefault("unobservable_models", []).append(["K-dialect-route", fname, o_d, o_v])
+    R.sample({"kernel": "K-dialect-route", "queries": nq, "property": "the Option<Dialect> taken from Options.target is the one compile_query receives (sql::compile -> translate_query -> compile_query)",
+              "wall_s": round(time.time() - t0, 2)})
+    core.log(f"[K-dialect-route] {nq} queries in {time.time()-t0:.1f}s")
